@@ -66,7 +66,7 @@ theorem no_leak_partial (s : St) (inj : Inj) (hok : s.loopOk = true)
     rcases hh h hm with h1 | h1 <;> simp [h1]
   intro e he
   have : (step s inj .loopClose).l.1.led = (exec s.l.1 loopClosePrims).led := by
-    simp [step, hok, hany, ret, St.say, St.run, exec, loopClosePrims, exec1, exec1raw, Prim.ok]
+    simp [step, opLoopClose, hok, hany, ret, St.say, St.run, exec, loopClosePrims, exec1, exec1raw, Prim.ok]
   rw [this] at he
   obtain ⟨hm, hl⟩ := loopClose_led s.l.1 s.l.2 e he
   rcases hclean e hm with h1 | h1 | ⟨f, h1⟩
